@@ -19,7 +19,12 @@ import (
 
 func init() {
 	register("C01", func(r *core.Run) int { return runSpec(r, false) }, func(w core.Witness) string { return replaySpec(w) })
-	register("C15", func(r *core.Run) int { return runSpec(r, true) }, func(w core.Witness) string { return replaySpec(w) })
+	register("C15", func(r *core.Run) int { return runSpec(r, true) }, func(w core.Witness) string {
+		if w.Kind == "mirror" {
+			return replayMirror(w)
+		}
+		return replaySpec(w)
+	})
 }
 
 var (
@@ -383,12 +388,15 @@ func runSpec(r *core.Run, rtl bool) int {
 		l.Count("inputs", int64(len(seenInputs)))
 	})
 	what := "left-to-right"
+	mirrorRule := ""
 	if rtl {
 		what = "RightToLeft"
+		runMirror(r)
+		mirrorRule = "; second phase, the mirror oracle: full-syntax patterns (balancing groups, conditionals, atomic groups, back-references, nested look-around; groups named so that numbering does not depend on order) matched left to right on a text against their mirror image (sequences reversed, look-ahead/behind and start/end anchors exchanged) matched RightToLeft on the reversed text, at every start offset: both must find mirrored matches with mirrored captures (counters mirror_*)"
 	}
 	r.Extras["bounds"] = map[string]any{"patterns": nPat, "max_exhaustive_len": maxLen, "exhaustive_alphabet": "<=4 pattern-derived symbols", "directed_inputs_per_pattern": nDirected, "ast_depth": "1-3", "reference_step_budget": 1500000}
 	return r.Finish(
-		"patterns printed from random ASTs of the C01 fragment ("+what+"); per pattern every string up to the length bound over <=4 pattern-derived symbols plus pattern-directed strings, at every start offset; evaluation = one (pattern,input,start) comparison of FindRunesMatchStartingAt (and FindStringMatch at the scan origin) with the executable specification; non-trivial = distinct (pattern,options,input) for which the specification finds a match at some start offset (patterns and inputs are de-duplicated, so the count is exact)",
+		"patterns printed from random ASTs of the C01 fragment ("+what+")"+mirrorRule+"; first phase: per pattern every string up to the length bound over <=4 pattern-derived symbols plus pattern-directed strings, at every start offset; evaluation = one (pattern,input,start) comparison of FindRunesMatchStartingAt (and FindStringMatch at the scan origin) with the executable specification; non-trivial = distinct (pattern,options,input) for which the specification finds a match at some start offset (patterns and inputs are de-duplicated, so the count is exact)",
 		[]string{"the executable specification (internal/ref) is trusted", "IgnoreCase cases use only letters whose fold orbit is a simple pair", "cases where the reference budget or the engine's MatchTimeout ran out are inconclusive"},
 		map[string]int64{"evaluations": 50000, "distinct_nontrivial": 2000, "patterns": 100})
 }
